@@ -404,6 +404,49 @@ fn dyn_staged(g: &mut Xo, rep: &mut Report) {
     }
 }
 
+/// Populations of plain values (`Vec<i64>`, `Vec<u8>`, `Vec<(i32, i32)>`) in which many members
+/// compare equal - all equal, two values, one distinct - with every tournament size up to the
+/// population size (and one beyond), best / worst / random: a member of that population (by
+/// address) or the documented error, and a result at all (a selector that waits for k *distinct
+/// values* never returns; the hang watchdog reports that).
+fn tied_plain_values(g: &mut Xo, rep: &mut Report) {
+    let n = 1 + g.usize_below(9);
+    let pattern = g.below(5);
+    let vals: Vec<i64> = (0..n).map(|i| match pattern { 0 => 7, 1 => (i % 2) as i64, 2 => i64::from(i == n - 1), 3 => (i / 3) as i64, _ => i64::MIN }).collect();
+    let as_u8: Vec<u8> = vals.iter().map(|v| (*v & 1) as u8).collect();
+    let as_pairs: Vec<(i32, i32)> = vals.iter().map(|v| ((*v & 3) as i32, 0)).collect();
+    fn one<T: Ord + std::fmt::Debug, S: Selector<Vec<T>>>(what: &str, sel: &S, pop: &Vec<T>, must_fail: bool, seed: u64, rep: &mut Report)
+    where
+        S::Error: std::fmt::Debug,
+    {
+        vh_core::shard::set_context(format!("C06 tied plain values: {what} on {pop:?}"));
+        let r = catch(|| sel.select(pop, &mut TraceRng::stream(seed)).map(|x| pop.iter().position(|p| std::ptr::eq(p, x))).map_err(|e| format!("{e:?}")));
+        rep.eval();
+        rep.count("tied-plain-values");
+        let why = match (&r, must_fail) {
+            (Err(p), _) => Some(format!("panic: {p}")),
+            (Ok(Ok(None)), _) => Some("returned a reference that is not an element of the population".to_string()),
+            (Ok(Ok(Some(_))), true) => Some("the tournament is larger than the population but a member was returned".to_string()),
+            (Ok(Ok(Some(_))), false) => None,
+            (Ok(Err(t)), true) => (!t.contains("TournamentSizeError")).then(|| format!("documented error TournamentSizeError, got {t}")),
+            (Ok(Err(t)), false) => Some(format!("no error is documented here, got {t}")),
+        };
+        if let Some(why) = why {
+            rep.violation(format!("C06/{what}/on-tied-plain-values"), || json!({"selector": what, "population": format!("{pop:?}"), "why": why}));
+        }
+    }
+    let seed = g.next();
+    for k in 1..=n + 1 {
+        let t = Tournament::new(std::num::NonZeroUsize::new(k).unwrap());
+        one(&format!("Tournament({k})"), &t, &vals, k > n, mix(seed, k as u64), rep);
+        one(&format!("Tournament({k})"), &t, &as_u8, k > n, mix(seed, 100 + k as u64), rep);
+        one(&format!("Tournament({k})"), &t, &as_pairs, k > n, mix(seed, 200 + k as u64), rep);
+    }
+    one("Best", &Best, &vals, false, seed, rep);
+    one("Worst", &Worst, &as_u8, false, seed, rep);
+    one("Random", &Random, &as_pairs, false, seed, rep);
+}
+
 fn large_population(g: &mut Xo, rep: &mut Report) {
     let n = match g.below(6) {
         0 => 10 + g.usize_below(30),
@@ -494,6 +537,9 @@ pub fn run(args: &Args) -> i32 {
             }
             if r % 2 == 0 {
                 dyn_staged(&mut g, &mut rep);
+            }
+            if r % 8 == 0 {
+                tied_plain_values(&mut g, &mut rep);
             }
         }
         rep
